@@ -678,6 +678,24 @@ def gauge_variants(ctx, tm, psi):
         m[k] = a * d.reshape((1,) * (a.ndim - 1) + (-1,))
         m[k + 1] = b / d.reshape((-1,) + (1,) * (b.ndim - 1))
     yield "non-canonical", m
+    # general gauge: a complex invertible matrix on every bond, mixing only states of equal label (block diagonal in the symmetry
+    # sectors): overlap matrices become complex, non-diagonal and non-symmetric
+    m = psi.copy().to_complex()
+    m.ensure_left_canonical()
+    for k in range(n - 1):
+        lab = np.asarray(m.qn[k + 1]).reshape(m[k].shape[-1], -1)
+        d = lab.shape[0]
+        G = np.zeros((d, d), dtype=complex)
+        for u in {tuple(x) for x in lab.tolist()}:
+            idx = [i for i in range(d) if tuple(lab[i].tolist()) == u]
+            blk = np.eye(len(idx)) + 0.35 * (rng.normal(size=(len(idx), len(idx))) + 1j * rng.normal(size=(len(idx), len(idx))))
+            G[np.ix_(idx, idx)] = blk
+        if np.linalg.cond(G) > 50:
+            continue
+        a, b = np.asarray(m[k].array), np.asarray(m[k + 1].array)
+        m[k] = np.tensordot(a, G, axes=([a.ndim - 1], [0]))
+        m[k + 1] = np.tensordot(np.linalg.inv(G), b, axes=([1], [0]))
+    yield "non-canonical-complex-gauge", m
     if n >= 3:
         m = psi.copy()
         m.ensure_right_canonical()
@@ -728,7 +746,7 @@ def block_gauge(ctx, tm, psi):
             run.count(f"gauge:{base}:{g}")
             if not err <= gauge_limit(spec, err0):
                 sig = f"{base}:gauge:{g}"
-                if base in ("tdvp_ps", "tdvp_ps2") and g in ("non-canonical", "mid-centre"):
+                if base in ("tdvp_ps", "tdvp_ps2") and g in ("non-canonical", "non-canonical-complex-gauge", "mid-centre"):
                     sig = f"{base}:input-not-canonical-at-sweep-start:wrong-result"
                 run.violation(sig, replay_base(tm, v0, spec, T=T, err_this_gauge=err, err_left_canonical=err0,
                                                                 bond=list(mp.bond_dims), qnidx=int(mp.qnidx), to_right=bool(mp.to_right),
